@@ -253,12 +253,12 @@ theorem strategy_all_single_request (img : Image) (cfg : PluginCfg) (hs : cfg.st
     So nothing is written outside the out directory of the plugin that returned it. -/
 theorem writes_under_out (cwd : Str) (ps : List PluginResp) (bs : Buckets)
     (hcwd : isAbs cwd = true) (h : runResponses cwd ps = .ok bs) :
-    (∀ x ∈ flushed bs, ∃ p ∈ ps, ∃ f ∈ p.files, f.insertionPoint = [] ∧
-      x.1 = absPath cwd p.out ∧ validatePath f.name = .ok x.2.1 ∧
+    (∀ x ∈ flushed bs, ∃ p ∈ ps, ∃ f ∈ p.files, f.getIP = [] ∧
+      x.1 = absPath cwd p.out ∧ validatePath f.getName = .ok x.2.1 ∧
       ∃ os ns : List Comp, AllProper os ∧ AllProper ns ∧ ns ≠ [] ∧
         absPath cwd p.out = '/' :: joinSlash os ∧ x.2.1 = renderKey ns ∧
         diskPath x.1 x.2.1 = '/' :: joinSlash (os ++ ns)) ∧
-    (∀ p ∈ ps, ∀ f ∈ p.files, ∃ k c, validatePath f.name = .ok k ∧
+    (∀ p ∈ ps, ∀ f ∈ p.files, ∃ k c, validatePath f.getName = .ok k ∧
       (absPath cwd p.out, k, c) ∈ flushed bs) := by
   unfold runResponses runResponsesWith at h
   split at h
@@ -291,10 +291,10 @@ theorem writes_under_out (cwd : Str) (ps : List PluginResp) (bs : Buckets)
     particular an insertion point into a pre-existing file on disk makes the whole run fail. -/
 theorem insertion_same_run_only (cwd : Str) (ps : List PluginResp) (bs : Buckets)
     (h : runResponses cwd ps = .ok bs) :
-    ∀ p ∈ ps, ∀ f ∈ p.files, f.insertionPoint ≠ [] →
-      ∃ k, validatePath f.name = .ok k ∧
+    ∀ p ∈ ps, ∀ f ∈ p.files, f.getIP ≠ [] →
+      ∃ k, validatePath f.getName = .ok k ∧
         ∃ p' ∈ ps, absPath cwd p'.out = absPath cwd p.out ∧
-          ∃ f' ∈ p'.files, f'.insertionPoint = [] ∧ validatePath f'.name = .ok k := by
+          ∃ f' ∈ p'.files, f'.getIP = [] ∧ validatePath f'.getName = .ok k := by
   unfold runResponses runResponsesWith at h
   split at h
   · cases h
@@ -305,8 +305,8 @@ theorem insertion_same_run_only (cwd : Str) (ps : List PluginResp) (bs : Buckets
     exact ⟨k, hk, p', hp', ho, f', hf', hip', hv'⟩
 
 /-- An insertion point never creates a file and never succeeds on a bucket that lacks its target. -/
-theorem insertion_needs_target (m : Mem) (f : RFile) (hip : f.insertionPoint ≠ [])
-    (k : Str) (hk : validatePath f.name = .ok k) (hnot : k ∉ m.keys) :
+theorem insertion_needs_target (m : Mem) (f : RFile) (hip : f.getIP ≠ [])
+    (k : Str) (hk : validatePath f.getName = .ok k) (hnot : k ∉ m.keys) :
     ∃ e, writeFile m f = .error e := by
   cases hw : writeFile m f with
   | error e => exact ⟨e, rfl⟩
@@ -340,8 +340,8 @@ theorem duplicate_output_is_error (cwd : Str) (ps : List PluginResp)
     error is reported and the second silently overwrites the first in the shared bucket. -/
 theorem duplicate_alias_counterexample :
     runResponsesOld "/w".toList
-      [⟨"gen".toList, [⟨"a.txt".toList, [], "one".toList⟩]⟩,
-       ⟨"/w/gen".toList, [⟨"a.txt".toList, [], "two".toList⟩]⟩] =
+      [⟨"gen".toList, [rf "a.txt".toList [] ("one".toList)]⟩,
+       ⟨"/w/gen".toList, [rf "a.txt".toList [] ("two".toList)]⟩] =
       .ok [("/w/gen".toList, [("a.txt".toList, "two")])] := by decide
 
 /-! ### Non-vacuity: a concrete image and concrete responses -/
@@ -398,24 +398,24 @@ example : isAbs "/w".toList = true := by decide
 -- responses: a successful run with a hostile-looking but valid spelling and an insertion point
 -- from a second plugin that shares the out directory under another spelling
 example : runResponses "/w".toList
-    [⟨"gen".toList, [⟨"a//b/../x.txt".toList, [], "l1\n  // @@protoc_insertion_point(p)\nl3".toList⟩]⟩,
-     ⟨"./gen/".toList, [⟨"a/x.txt".toList, "p".toList, "new".toList⟩]⟩] =
+    [⟨"gen".toList, [rf "a//b/../x.txt".toList [] ("l1\n  // @@protoc_insertion_point(p)\nl3".toList)]⟩,
+     ⟨"./gen/".toList, [rf "a/x.txt".toList "p".toList ("new".toList)]⟩] =
     .ok [("/w/gen".toList, [("a/x.txt".toList, "l1\n  new\n  // @@protoc_insertion_point(p)\nl3")])] := by decide
 -- escaping names are rejected
-example : runResponses "/w".toList [⟨"gen".toList, [⟨"../x".toList, [], []⟩]⟩] = .error (.path .outsideContext) := by decide
-example : runResponses "/w".toList [⟨"gen".toList, [⟨"/abs".toList, [], []⟩]⟩] = .error (.path .notRelative) := by decide
+example : runResponses "/w".toList [⟨"gen".toList, [rf "../x".toList [] ([])]⟩] = .error (.path .outsideContext) := by decide
+example : runResponses "/w".toList [⟨"gen".toList, [rf "/abs".toList [] ([])]⟩] = .error (.path .notRelative) := by decide
 -- an insertion point into a file no plugin produced in this run fails
-example : runResponses "/w".toList [⟨"gen".toList, [⟨"existing.txt".toList, "p".toList, "x".toList⟩]⟩] =
+example : runResponses "/w".toList [⟨"gen".toList, [rf "existing.txt".toList "p".toList ("x".toList)]⟩] =
     .error (.path .notExist) := by decide
 -- duplicates under different spellings of the name are an error
 example : runResponses "/w".toList
-    [⟨"gen".toList, [⟨"a/b".toList, [], []⟩]⟩, ⟨"gen".toList, [⟨"./a//b".toList, [], []⟩]⟩] = .error .duplicate := by decide
+    [⟨"gen".toList, [rf "a/b".toList [] ([])]⟩, ⟨"gen".toList, [rf "./a//b".toList [] ([])]⟩] = .error .duplicate := by decide
 -- … and so are duplicates under different spellings of the OUT directory (the fixed finding)
 example : runResponses "/w".toList
-    [⟨"gen".toList, [⟨"a.txt".toList, [], "one".toList⟩]⟩, ⟨"/w/gen".toList, [⟨"a.txt".toList, [], "two".toList⟩]⟩] = .error .duplicate := by decide
+    [⟨"gen".toList, [rf "a.txt".toList [] ("one".toList)]⟩, ⟨"/w/gen".toList, [rf "a.txt".toList [] ("two".toList)]⟩] = .error .duplicate := by decide
 example : runResponses "/w".toList
-    [⟨"./x/../gen".toList, [⟨"a.txt".toList, [], []⟩]⟩, ⟨"../w/gen".toList, [⟨"./a.txt".toList, [], []⟩]⟩] = .error .duplicate := by decide
+    [⟨"./x/../gen".toList, [rf "a.txt".toList [] ([])]⟩, ⟨"../w/gen".toList, [rf "./a.txt".toList [] ([])]⟩] = .error .duplicate := by decide
 example : ¬ (allKeys (dupKey "/w".toList)
-    [⟨"gen/sub".toList, [⟨"a".toList, [], []⟩]⟩, ⟨"gen".toList, [⟨"sub/a".toList, [], []⟩]⟩]).Nodup := by decide
+    [⟨"gen/sub".toList, [rf "a".toList [] ([])]⟩, ⟨"gen".toList, [rf "sub/a".toList [] ([])]⟩]).Nodup := by decide
 
 end BufProofs.C17
